@@ -237,7 +237,7 @@ pub fn build_history(intents: &[Intent], p: &GenParams, head: &Intent) -> Built 
         if !want { continue; }
         // (a position of no shares that still carries a cost base - e.g. after a fully denied loss - has no equivalent purchase row, so the
         // C16 generator, which compares with one, leaves it out)
-        let table: &[(&str, &str)] = if p.opening_all_secs { &[("10", "1000"), ("3", "10"), ("0.5", "33.33"), ("100", "0"), ("7", "100.01"), ("0", "0")] } else { &[("10", "1000"), ("3", "10"), ("0.5", "33.33"), ("100", "0"), ("7", "100.01"), ("0", "0"), ("0", "12.5"), ("0", "150")] };
+        let table: &[(&str, &str)] = if p.opening_all_secs { &[("10", "1000"), ("3", "10"), ("0.5", "33.33"), ("100", "0"), ("7", "100.01"), ("0", "0"), ("3", "250.3333333333"), ("2", "100.009")] } else { &[("10", "1000"), ("3", "10"), ("0.5", "33.33"), ("100", "0"), ("7", "100.01"), ("0", "0"), ("0", "12.5"), ("0", "150"), ("3", "250.3333333333"), ("2", "100.009")] };
         let (sh, acb) = pick(head.qty.wrapping_add((i as u16).wrapping_mul(13001)), table);
         opening.push((sec.to_string(), sh.to_string(), acb.to_string()));
         let e = st.entry(sec.to_string()).or_default();
